@@ -60,7 +60,7 @@ GOLDEN: Dict[str, str] = {
     "storage_backend.LocalStorageBackend._real_base_path": "994a50317039dd3e2cd80e26671438c0be897c80549be64e776a81bf4656e441",
     "storage_backend.LocalStorageBackend._resolve_path": "0934474f56a05ee5de8a0e0bc2d6544a58f8c5ccdaa6b086d3059fcd25b715e8",
     "storage_backend.LocalStorageBackend._resolve_file_target": "89f19d9b588277cfdcfeb690b896bcd90fad50ebce52b410600c9d7a93a2b512",
-    "storage_backend.LocalStorageBackend.list_files": "35510588060a49d6fafe21e50e3618a20af69f3c42f026ea1e7f99341790374a",
+    "storage_backend.LocalStorageBackend.list_files": "6a4e66d99a0487573359094306c6b01bfc9cbf7202f5f5ae17cfbfeb93bde71b",
     "data_operations.DataFileManager._get_arrow_path": "3981732dafe5c86fddc0ebb862d66f493ee3775eb70e83873cfbb97d329ecba9",
     "data_operations.DataFileManager._get_arrow_write_path": "2a05f66524b32af68001f2707b193c09b6385347a543a25b651beda7cf779e62",
     "data_operations.DataFileManager.open_parquet_source": "90aaf6d70612c56bb8948dc4a75810d29f8e7a5899762e83fc0b4e35c3d98706",
